@@ -60,6 +60,8 @@ def amp_waveform(draw, d, kinds=("const", "ramp", "blackman", "interp", "comp"))
     k = draw(st.sampled_from(kinds))
     if k == "comp" and d < 8:
         k = "const"
+    if k == "blackman" and d < 4:  # pulser's BlackmanWaveform yields NaN samples for tiny durations
+        k = "ramp"
     if k == "const":
         return {"k": "const", "d": d, "v": draw(_amp_val())}
     if k == "ramp":
@@ -69,7 +71,7 @@ def amp_waveform(draw, d, kinds=("const", "ramp", "blackman", "interp", "comp"))
     if k == "interp":
         m = draw(st.integers(2, 5))
         return {"k": "interp", "d": d, "vals": [draw(_amp_val()) for _ in range(m)]}
-    d1 = draw(st.integers(2, d - 2))
+    d1 = draw(st.integers(4, d - 4))
     sub = ("const", "ramp", "blackman", "interp")
     return {"k": "comp", "parts": [draw(amp_waveform(d1, sub)), draw(amp_waveform(d - d1, sub))]}
 
